@@ -101,6 +101,7 @@ type c14 struct {
 	step      int
 	touched   []string // days added or changed by earlier fix-ups (bias: follow-up fix-ups hit the same records)
 	lastNames []string // the slice object most recently passed to Fix as names list
+	blocks    [][2]time.Time // first and last day of the recorded runs added so far
 	renames   int
 }
 
@@ -403,6 +404,51 @@ func (c *c14) resolve(st spec.HStep) ([]string, string) {
 			probesC["fix_add_between"]++
 			if day < maxDay {
 				probesC["fix_add_before_existing"]++
+			}
+		case "add_block":
+			// a run of consecutive recorded days (a long shutdown, or a run of make-up days across weekends): absent days
+			// are added, present ones replaced, all in one fix-up string in date order
+			var n int
+			switch c.rnd() % 20 {
+			case 0, 1, 2, 3, 4, 5, 6, 7:
+				n = 2 + int(c.rnd()%8)
+			case 8, 9, 10, 11, 12:
+				n = 10 + int(c.rnd()%22)
+			case 13, 14:
+				n = 29 + int(c.rnd()%6) // around a month
+			default:
+				n = 32 + int(c.rnd()%40)
+			}
+			var start time.Time
+			switch {
+			case len(days) > 0 && c.rnd()%2 == 0:
+				start = dayTime(days[c.rnd()%uint64(len(days))]).AddDate(0, 0, int(c.rnd()%21)-10)
+			case c.rnd()%3 == 0:
+				start = dayTime(c.freeDay(c.lastY + 1 + int(c.rnd()%2)))
+			default:
+				start = dayTime(c.freeDay(c.firstY + int(c.rnd()%uint64(c.lastY-c.firstY+1))))
+			}
+			work := c.rnd()%4 == 0
+			name := c.pickName(nNames)
+			target := start.Format("2006-01-02")
+			wrote := 0
+			for i := 0; i < n; i++ {
+				d := start.AddDate(0, 0, i).Format("2006-01-02")
+				if used[d] {
+					continue
+				}
+				seg(d, name, work, target)
+				used[d] = true
+				wrote++
+			}
+			if wrote == 0 {
+				continue
+			}
+			day = target
+			c.blocks = append(c.blocks, [2]time.Time{start, start.AddDate(0, 0, n-1)})
+			probesC["fix_add_block"]++
+			if n > 31 {
+				probesC["fix_add_block_longer_than_31_days"]++
 			}
 		case "replace_flag", "replace_name", "replace_target":
 			if len(days) == 0 {
@@ -744,15 +790,29 @@ func (c *c14) checkWalks(days []string) {
 			start = time.Date(lo+int(c.rnd()%uint64(hi-lo+1)), time.Month(1+c.rnd()%12), int(1+c.rnd()%28), 0, 0, 0, 0, time.UTC)
 		}
 		var steps int
-		switch c.rnd() % 4 {
-		case 0:
-			steps = int(c.rnd()%5) - 2
-		case 1:
-			steps = int(c.rnd()%41) - 20
-		case 2:
-			steps = int(c.rnd()%801) - 400
-		default:
-			steps = []int{0, 1, -1, 5, -5, 7, -7, 22, -22, 250, -250}[c.rnd()%11]
+		forced := false
+		if len(c.blocks) > 0 && i%6 == 1 {
+			// into a recorded run from just outside it, in either direction, by a few working days
+			b := c.blocks[c.rnd()%uint64(len(c.blocks))]
+			if c.rnd()%2 == 0 {
+				start, steps = b[0].AddDate(0, 0, -1-int(c.rnd()%3)), 1+int(c.rnd()%4)
+			} else {
+				start, steps = b[1].AddDate(0, 0, 1+int(c.rnd()%3)), -1-int(c.rnd()%4)
+			}
+			forced = true
+			probesC["workday_walk_into_recorded_run"]++
+		}
+		if !forced {
+			switch c.rnd() % 4 {
+			case 0:
+				steps = int(c.rnd()%5) - 2
+			case 1:
+				steps = int(c.rnd()%41) - 20
+			case 2:
+				steps = int(c.rnd()%801) - 400
+			default:
+				steps = []int{0, 1, -1, 5, -5, 7, -7, 22, -22, 250, -250}[c.rnd()%11]
+			}
 		}
 		// reference walk
 		exp := start
